@@ -316,6 +316,8 @@ const SLOT_CAP: usize = 8192;
 struct Slot {
     len: AtomicUsize,
     tag: AtomicU64,
+    /// value of the one-second ticker when the current input was handed over
+    epoch: AtomicU64,
     buf: std::cell::UnsafeCell<[u8; SLOT_CAP]>,
 }
 unsafe impl Sync for Slot {}
@@ -324,10 +326,13 @@ unsafe impl Sync for Slot {}
 const EMPTY_SLOT: Slot = Slot {
     len: AtomicUsize::new(usize::MAX),
     tag: AtomicU64::new(0),
+    epoch: AtomicU64::new(0),
     buf: std::cell::UnsafeCell::new([0; SLOT_CAP]),
 };
 static SLOTS: [Slot; N_SLOTS] = [EMPTY_SLOT; N_SLOTS];
 static CRASH_FD: AtomicI32 = AtomicI32::new(-1);
+/// seconds since the crash handler was installed (a ticker thread counts them)
+static EPOCH: AtomicU64 = AtomicU64::new(0);
 static IN_HANDLER: AtomicBool = AtomicBool::new(false);
 
 pub fn set_slot(id: usize) {
@@ -346,6 +351,7 @@ pub fn breadcrumb(tag: u64, bytes: &[u8]) {
         std::ptr::copy_nonoverlapping(bytes.as_ptr(), (*s.buf.get()).as_mut_ptr(), n);
     }
     s.tag.store(tag, Ordering::Relaxed);
+    s.epoch.store(EPOCH.load(Ordering::Relaxed), Ordering::Relaxed);
     s.len.store(n, Ordering::Release);
 }
 
@@ -407,6 +413,8 @@ fn dump_slot(fd: i32, sig: i32, id: usize, culprit: bool) {
     num(id as u64, &mut line, &mut p);
     put(b" tag=", &mut line, &mut p);
     num(s.tag.load(Ordering::Relaxed), &mut line, &mut p);
+    put(b" age=", &mut line, &mut p);
+    num(EPOCH.load(Ordering::Relaxed).saturating_sub(s.epoch.load(Ordering::Relaxed)), &mut line, &mut p);
     put(b" input=", &mut line, &mut p);
     write_all(fd, &line[..p]);
     let buf = unsafe { &*s.buf.get() };
@@ -451,6 +459,10 @@ pub fn install_crash_handler(path: &str) {
         machinery_panic("cannot open crash file");
     }
     CRASH_FD.store(fd, Ordering::SeqCst);
+    std::thread::spawn(|| loop {
+        std::thread::sleep(std::time::Duration::from_secs(1));
+        EPOCH.fetch_add(1, Ordering::Relaxed);
+    });
     unsafe {
         for sig in [libc::SIGABRT, libc::SIGSEGV, libc::SIGBUS, libc::SIGILL, libc::SIGFPE, libc::SIGTERM, libc::SIGALRM] {
             let mut sa: libc::sigaction = std::mem::zeroed();
